@@ -15,9 +15,9 @@
 package netpoll
 
 import (
-	"unsafe"
 	"runtime"
 	"sync/atomic"
+	"unsafe"
 )
 
 type who = int32
